@@ -167,6 +167,11 @@ pub trait Prop: Sync {
     fn known_finding(&self, _case: &Self::Case, _v: &Violation) -> Option<&'static str> {
         None
     }
+    /// Cross-configuration check over the per-run digests of the finished batch (C07: second CRC
+    /// back end). Ok(Some((index, class, detail))) = violation at that run index.
+    fn cross_check(&self, _opts: &Options, _runs: u64, _digests: &[(u64, u64)], _counters: &mut BTreeMap<String, u64>) -> Result<Option<(u64, String, String)>, String> {
+        Ok(None)
+    }
     /// Fixed regression inputs: one per known finding / repaired defect, executed before the batch.
     fn regressions(&self) -> Vec<(String, Self::Case)> {
         Vec::new()
@@ -343,7 +348,13 @@ fn run_index<P: Prop>(p: &P, opts: &Options, index: u64) -> Collected {
         tier: opts.tier,
     };
     let mut st = RunStats::default();
-    let case = match guard(|| p.generate(&rc)) {
+    let case = match guard(|| {
+        if index >= REGRESSION_BASE {
+            p.regressions().into_iter().nth((index - REGRESSION_BASE) as usize).map(|(_, c)| c).expect("regression index")
+        } else {
+            p.generate(&rc)
+        }
+    }) {
         Ok(c) => c,
         Err((loc, msg)) => {
             return Collected {
@@ -406,14 +417,18 @@ pub fn child_main<P: Prop>(p: &P, opts: &Options, from: u64, to: u64) -> i32 {
 
 const CHILD_RUN_TIMEOUT: Duration = Duration::from_secs(20);
 const CHILD_SHARD: u64 = 250;
+/// run indices from here on address the fixed regression inputs (child-process isolation)
+pub const REGRESSION_BASE: u64 = 1 << 40;
 
 fn run_children<P: Prop>(
     p: &P,
     opts: &Options,
+    base: u64,
     total: u64,
     deadline: Option<Instant>,
 ) -> (Vec<Collected>, u64) {
-    let next = AtomicU64::new(0);
+    let total = base + total;
+    let next = AtomicU64::new(base);
     let results: Mutex<Vec<Collected>> = Mutex::new(Vec::new());
     let exe = std::env::current_exe().expect("current exe");
     let stop = AtomicBool::new(false);
@@ -565,7 +580,7 @@ fn run_children<P: Prop>(
             });
         }
     });
-    let done = next.load(Ordering::SeqCst).min(total);
+    let done = next.load(Ordering::SeqCst).min(total) - base;
     (results.into_inner().unwrap(), done)
 }
 
@@ -687,27 +702,55 @@ pub fn replay_main<P: Prop>(p: &P, path: &Path) -> i32 {
 
 fn replay_in_fresh_process(prop: &str, path: &Path, class: &str) -> Result<(), String> {
     let exe = std::env::current_exe().map_err(|e| e.to_string())?;
-    let out = Command::new(exe)
+    let mut child = Command::new(exe)
         .arg(prop)
         .arg("--replay")
         .arg(path)
         .stdin(Stdio::null())
-        .output();
-    match out {
-        Ok(o) => {
-            let text = String::from_utf8_lossy(&o.stdout);
-            if text.contains(&format!("class={class}")) || (o.status.code().is_none() && (class == "abort" || class == "hang")) || (o.status.code() == Some(134)) {
+        .stdout(Stdio::piped())
+        .stderr(Stdio::null())
+        .spawn()
+        .map_err(|e| format!("cannot start replay process: {e}"))?;
+    let started = Instant::now();
+    let status = loop {
+        match child.try_wait() {
+            Ok(Some(s)) => break Some(s),
+            Ok(None) => {
+                if started.elapsed() > CHILD_RUN_TIMEOUT + Duration::from_secs(10) {
+                    let _ = child.kill();
+                    let _ = child.wait();
+                    break None;
+                }
+                std::thread::sleep(Duration::from_millis(20));
+            }
+            Err(e) => return Err(format!("cannot wait for replay process: {e}")),
+        }
+    };
+    let mut text = String::new();
+    if let Some(mut o) = child.stdout.take() {
+        use std::io::Read;
+        let _ = o.read_to_string(&mut text);
+    }
+    match status {
+        None => {
+            if class == "hang" {
+                Ok(())
+            } else {
+                Err(format!("fresh-process replay of {} timed out", path.display()))
+            }
+        }
+        Some(s) => {
+            if text.contains(&format!("class={class}")) || (class == "abort" && !s.success() && s.code() != Some(1) && s.code() != Some(2)) {
                 Ok(())
             } else {
                 Err(format!(
                     "fresh-process replay of {} did not reproduce class {class}: exit {:?}, output: {}",
                     path.display(),
-                    o.status.code(),
+                    s.code(),
                     text.lines().take(3).collect::<Vec<_>>().join(" | ")
                 ))
             }
         }
-        Err(e) => Err(format!("cannot start replay process: {e}")),
     }
 }
 
@@ -733,10 +776,34 @@ pub fn batch_main<P: Prop>(p: &P, opts: &Options) -> i32 {
 
     // 1. regression inputs for known findings and repaired defects
     let mut regression_count = 0u64;
-    for (label, case) in p.regressions() {
+    let regs = p.regressions();
+    let isolated: Vec<Collected> = if p.plan(opts.tier).isolation == Isolation::Children && !regs.is_empty() {
+        let (mut v, _) = run_children(p, opts, REGRESSION_BASE, regs.len() as u64, None);
+        v.sort_by_key(|c| c.index);
+        v
+    } else {
+        Vec::new()
+    };
+    for (ri, (label, case)) in regs.into_iter().enumerate() {
         regression_count += 1;
         let mut st = RunStats::default();
-        match execute_guarded(p, &case, &mut st) {
+        let result = if p.plan(opts.tier).isolation == Isolation::Children {
+            match isolated.iter().find(|c| c.index == REGRESSION_BASE + ri as u64) {
+                Some(c) => {
+                    if let Some(e) = &c.harness_error {
+                        RunResult::HarnessError(e.clone())
+                    } else if let Some((v, n)) = &c.violation {
+                        RunResult::Violation(v.clone(), n.as_ref().and_then(|x| serde_json::from_value(x.clone()).ok()))
+                    } else {
+                        RunResult::Held
+                    }
+                }
+                None => RunResult::HarnessError("regression input was not executed".into()),
+            }
+        } else {
+            execute_guarded(p, &case, &mut st)
+        };
+        match result {
             RunResult::Held => {}
             RunResult::Violation(v, n) => {
                 let c = n.unwrap_or(case);
@@ -785,7 +852,7 @@ pub fn batch_main<P: Prop>(p: &P, opts: &Options) -> i32 {
     let deadline = time_box.map(|s| Instant::now() + Duration::from_secs(s));
     let (mut results, _pulled) = match plan.isolation {
         Isolation::Threads => run_threads(p, opts, total, deadline),
-        Isolation::Children => run_children(p, opts, total, deadline),
+        Isolation::Children => run_children(p, opts, 0, total, deadline),
     };
     results.sort_by_key(|c| c.index);
     // keep the contiguous prefix only so that the reported set is "indices 0..n"
@@ -923,9 +990,55 @@ pub fn batch_main<P: Prop>(p: &P, opts: &Options) -> i32 {
             }
         }
     }
+    if !violating.is_empty() {
+        let mut classes: BTreeMap<String, u64> = BTreeMap::new();
+        for c in &violating {
+            if let Some((v, _)) = &c.violation {
+                *classes.entry(v.class.clone()).or_insert(0) += 1;
+            }
+        }
+        println!("violation classes (incl. listed known findings): {classes:?}");
+    }
     for (fid, n) in &known_hits {
         if let Some((_, what)) = known.iter().find(|(k, _)| k == fid) {
             println!("KNOWN-FINDING: property={id} {fid}: {what} [{n} case(s) in this run]");
+        }
+    }
+
+    // 3b. cross-configuration check
+    if exit == 0 && opts.digests_out.is_none() {
+        match p.cross_check(opts, n_done, &digests, &mut counters) {
+            Ok(None) => {}
+            Ok(Some((index, class, detail))) => {
+                let rc = RunCtx { seed: opts.seed, index, run_seed: rng::run_seed(opts.seed, id, index), tier: opts.tier };
+                let case = p.generate(&rc);
+                let rf = ReplayFile {
+                    property: id.to_string(),
+                    seed: opts.seed,
+                    index,
+                    tier: opts.tier.name().into(),
+                    class: class.clone(),
+                    detail: detail.clone(),
+                    shrink_steps: 0,
+                    case: serde_json::to_value(&case).unwrap_or(Value::Null),
+                };
+                match write_replay(&replay_dir, &rf) {
+                    Ok(path) => {
+                        println!("violation: run={index} class={class} {detail}");
+                        println!("VIOLATION property={id} replay={}", path.display());
+                        unlisted += 1;
+                        exit = 1;
+                    }
+                    Err(e) => {
+                        eprintln!("HARNESS-ERROR cannot write replay: {e}");
+                        return 2;
+                    }
+                }
+            }
+            Err(e) => {
+                eprintln!("HARNESS-ERROR property={id} cross check: {e}");
+                return 2;
+            }
         }
     }
 
